@@ -400,3 +400,40 @@ namespace verif {
         for (;;) pause();
     }
 }    // namespace verif
+
+// ---- logical threads as pika tasks (for primitives that need a pika task identity) --------
+#if defined(VERIF_WITH_PIKA_TASKS)
+# include <pika/execution.hpp>
+# include <pika/init.hpp>
+# include <pika/thread.hpp>
+namespace verif {
+    // Start a runtime with K+1 workers in this (child) process, run body i as a pika task that
+    // installs the verif_agent and then occupies its worker for the whole case.  The tasks never
+    // reach pika's scheduler through the agent (all agent calls are intercepted), so a task stays
+    // on its worker and `my_tid` (thread_local) stays valid.
+    [[noreturn]] inline void run_pika_tasks(controller& c, std::vector<std::function<void()>> bodies)
+    {
+        g_ctl = &c;
+        std::string threads = "--pika:threads=" + std::to_string(c.n + 1);
+        char const* argv[] = {"e1", threads.c_str(), "--pika:bind=none", nullptr};
+        pika::start(nullptr, 3, argv);
+# if defined(PIKA_VERIF_HOOKS)
+        pika::verif::sink.store(&e1_sink);
+# endif
+        namespace ex = pika::execution::experimental;
+        for (int i = 0; i < c.n; ++i)
+        {
+            ex::start_detached(ex::schedule(ex::thread_pool_scheduler{}) | ex::then([&c, i, &bodies] {
+                verif_agent ag(i, &c);
+                pika::execution::this_thread::detail::reset_agent ra(ag);
+                c.thread_begin(i);
+                bodies[i]();
+                c.thread_end(i);
+                for (;;) ::pause();    // never give the worker back: the case ends by _exit
+            }));
+        }
+        c.start_all();
+        for (;;) ::pause();
+    }
+}    // namespace verif
+#endif
